@@ -415,6 +415,19 @@ func (tr *Tracer) finish(st *state, end EndKind, ret []*Sym) {
 			if r == nil || r.isNilConst() || r.Typ == nil {
 				continue
 			}
+			if b, isB := r.Typ.Underlying().(*types.Basic); isB && b.Info()&types.IsBoolean != 0 && !r.isConst() {
+				// a returned condition the path has branched on is that constant (`return existed` under `existed`)
+				if facts == nil {
+					facts = t.factsBefore(len(evs))
+				}
+				if v, known := condFact(facts, r); known {
+					nr := make([]*Sym, len(ret))
+					copy(nr, t.Ret)
+					nr[i] = symBool(v)
+					t.Ret = nr
+				}
+				continue
+			}
 			switch r.Typ.Underlying().(type) {
 			case *types.Interface, *types.Pointer, *types.Slice, *types.Map:
 			default:
